@@ -54,7 +54,7 @@ def run_misc(p):
     if fam == "returning":
         PG = P.PostgreSQLQuery
         kind, what = p["kind"], p["what"]
-        joined = what == "joined" and kind in ("update", "delete")
+        joined = what in ("joined", "joined-star") and kind in ("update", "delete")
         if kind == "select":
             q = PG.from_(t1).select(t1.a)
         elif kind == "insert":
@@ -70,7 +70,11 @@ def run_misc(p):
                 q = q.join(t2).on(t1.a == t2.a)
             q = q.delete()
         arg = {"own": t1.b, "foreign": P.Table("t9").b, "str": "b", "star": "*", "const": 1, "agg": fn.Sum(t1.a),
-               "joined": t2.b if joined else t1.b}[what]
+               "joined": t2.b if joined else t1.b,
+               "own-star": t1.star, "foreign-star": P.Table("t9").star, "joined-star": t2.star if joined else t1.star,
+               "own-expr": t1.b + 1, "foreign-expr": P.Table("t9").b + 1, "mixed-expr": t1.b + P.Table("t9").b,
+               "own-case": P.Case().when(t1.b == 1, t1.a).else_(0), "foreign-case": P.Case().when(t1.b == 1, P.Table("t9").a).else_(0)}[what]
+        joined = (what in ("joined", "joined-star")) and kind in ("update", "delete")
         holder = {}
 
         def call():
